@@ -54,6 +54,13 @@ def make_items(tier, seed):
     items.append({"ob": "const_to_qtype", "type": "str"})
     for sh in SHAPES[: (len(SHAPES) if tier == "thorough" else 14)]:
         items.append({"ob": "interpret", "type": sh})
+    # histories of literals of equal numeric value but different Python type (1 and 1.0, 5 and 5.0 ...):
+    # each literal is encoded by its own type whatever was translated before in the process
+    for k, order in enumerate([[1, 1.0, 0, 0.0, 5, 5.0, 2.5, 3.0, 3], [1.0, 1, 5.0, 5, 0.0, 0, 3, 3.0], [1, 0, 1.0, 0.0, 7.0, 7, 2, 2.0, 6, 6.0]]):
+        items.append({"ob": "literal-history", "type": "mixed", "order": [repr(x) for x in order], "k": k})
+    # the outcome passed as a list of bools: left untouched, and decoded the same way twice
+    for sh in ("Qint4", "Tuple[Qint2, Tuple[Qint4, bool]]", "Tuple[bool, Qint3]", "Qlist[Qint2, 3]"):
+        items.append({"ob": "interpret-list", "type": sh})
     return items
 
 
@@ -148,11 +155,74 @@ def harness(spec, mod, inputs):
     raise ValueError(ob)
 
 
+def concrete_items(spec, res, st):
+    """obligations about call histories / frame conditions, on the real module (concrete values:
+    there is nothing for the solver to quantify over except the order, which is enumerated)"""
+    import qlasskit
+    from qlasskit.types import const_to_qtype, interpret_as_qtype
+
+    def finding(kind, what):
+        res["findings"].append({"kind": kind, "what": what, "cex": {}, "replayed": True})
+
+    if spec["ob"] == "literal-history":
+        seen = []
+        for lit in spec["order"]:
+            v = eval(lit)
+            try:
+                t, bits = const_to_qtype(v)
+            except Exception as e:
+                finding("codec-literal-history", "const_to_qtype(%s) after %s raises %s: %s" % (lit, seen, type(e).__name__, str(e)[:60]))
+                break
+            name = getattr(t, "__name__", str(t))
+            if isinstance(v, bool):
+                ok = t is bool and bits == v
+            elif isinstance(v, int):
+                ok = name.startswith("Qint") and t.from_bool(bits) == v and len(bits) == t.BIT_SIZE
+            else:
+                ok = name.startswith("Qfixed") and float(t.from_bool(bits)) == v and len(bits) == t.BIT_SIZE
+            if not ok:
+                finding("codec-literal-history", "const_to_qtype(%s) after %s -> (%s, %s): not the encoding of a %s literal" % (lit, seen, name, bits, type(v).__name__))
+                break
+            seen.append(lit)
+        return st.into(res)
+    # interpret-list
+    t = resolve(qlasskit, spec["type"])
+    n = sum(1 if l is bool else l.BIT_SIZE for l in leaves(t))
+    rnd = random.Random(int(item_id(spec), 16))
+    pats = [[(i >> k) & 1 == 1 for k in range(n)] for i in ([1, 2 ** (n - 1), 5 % (2 ** n), 2 ** n - 2] + [rnd.randrange(2 ** n) for _ in range(12)])]
+    for bits in pats:
+        arg = list(bits)
+        try:
+            v1 = interpret_as_qtype(arg, t, n)
+            after1 = list(arg)
+            v2 = interpret_as_qtype(arg, t, n)
+        except Exception as e:
+            finding("codec-interpret-list", "%s: interpret_as_qtype(%s) raises %s" % (spec["type"], bits, type(e).__name__))
+            break
+        if after1 != bits or list(arg) != bits:
+            finding("codec-interpret-list", "%s: the caller's outcome list %s is left as %s after one call" % (spec["type"], bits, after1))
+            break
+        if repr(v1) != repr(v2):
+            finding("codec-interpret-list", "%s: the same outcome list %s decodes to %r and then to %r" % (spec["type"], bits, v1, v2))
+            break
+        flat = []
+        for x, l in zip(flat_values(v1, t), leaves(t)):
+            flat += [x] if l is bool else list(x.to_bool())
+        s_ = "".join("1" if b else "0" for b in bits)
+        vs = interpret_as_qtype(s_, t, n)
+        if repr(vs) != repr(v1):
+            finding("codec-interpret-list", "%s: list %s decodes to %r, the string with the same characters to %r" % (spec["type"], bits, v1, vs))
+            break
+    return st.into(res)
+
+
 def check_item(spec):
     import qlasskit
 
     st = Stats()
     res = {"status": "ok", "findings": [], "nontrivial": True}
+    if spec["ob"] in ("literal-history", "interpret-list"):
+        return concrete_items(spec, res, st)
     tw = symx.twin()
     ob, tn = spec["ob"], spec["type"]
     base = []
